@@ -3,7 +3,8 @@
    Values are real numbers (float32 rounding is not modelled); [X] are the two opaque functions
    (Euler16 decoder, integer modulus), universally quantified.  Only statements closed by `exact`. *)
 From Coq Require Import ZArith QArith Reals List.
-From Abacus.C05 Require Import Expr Gen Spec Model Proofs.
+From Abacus.HaloTable Require Import Expr Gen Values.
+From Abacus.C05 Require Import Spec Proofs.
 Local Open Scope R_scope.
 
 (* Every column name of the dtype tables is matched by exactly one registered regular expression, divisions are by
